@@ -191,16 +191,24 @@ static std::vector<std::string> classify_one(const Flat& t, int k, bool use_mid,
 // A node whose true container is itself misplaced (e.g. the hole of an island that was hung on the root) is only a
 // consequence: follow the chain of true containers up to the node whose own container sits where it belongs and
 // classify that one (tag via_misplaced_container records that this happened).
-static std::vector<std::string> classify_node(const Flat& t, int k, bool use_mid, const std::string& cls) {
-  int T = -1; bool moved = false;
+// Composite tag (for narrow known-finding keys): <relation>@<class>:<outer|hole>[:edge_overlap] where outer/hole is
+// the exact orientation of the misplaced polygon (relative to ReverseSolution) and edge_overlap says that it shares
+// a positive-length piece of boundary with its true container.
+static std::vector<std::string> classify_node(const Flat& t, int k, bool use_mid, const std::string& cls, bool rev) {
+  int T = -1; bool moved = false; int who = k;
   std::vector<std::string> tags = classify_one(t, k, use_mid, cls, T);
   for (int it = 0; it < 16 && tags[0] != "attached_too_high" && tags[0] != "parent_is_true_container" && T >= 0; ++it) {
     int T2 = -1;
     std::vector<std::string> up = classify_one(t, T, use_mid, cls, T2);
     if (up[0] == "parent_is_true_container") break;
-    tags = up; T = T2; moved = true;
+    tags = up; who = T; T = T2; moved = true;
   }
   if (moved) tags.push_back("via_misplaced_container");
+  const Node& W = t.nodes[(size_t)who];
+  std::string kind = W.a2 == 0 ? "flat" : ((W.a2 < 0) != rev ? "hole" : "outer");
+  tags.push_back("misplaced_is_" + kind);
+  bool ov = std::find(tags.begin(), tags.end(), "edge_overlap_true_container") != tags.end();
+  tags.push_back(tags[0] + "@" + cls + ":" + kind + (ov ? ":edge_overlap" : ""));
   return tags;
 }
 static std::vector<std::string> join_tags(std::vector<std::string> a, const std::vector<std::string>& b) { a.insert(a.end(), b.begin(), b.end()); return a; }
@@ -236,7 +244,7 @@ static bool check_nesting(Ctx& ctx, const Case& c, const Flat& t, bool rev, bool
     bool negative = nd.a2 < 0;
     bool expect_negative = (should_be_hole != rev);
     if (negative != expect_negative) {
-      ctx.violation("C04.hole_parity", join_tags({ "ishole_vs_orientation", which, cls, rev ? "rev" : "norev" }, classify_node(t, (int)k, use_mid, cls)), c,
+      ctx.violation("C04.hole_parity", join_tags({ "ishole_vs_orientation", which, cls, rev ? "rev" : "norev" }, classify_node(t, (int)k, use_mid, cls, rev)), c,
         std::string(which) + " node " + std::to_string(k) + " at depth " + std::to_string(nd.level) + " IsHole=" + std::to_string(nd.lib_hole) +
         " has " + (negative ? "negative" : "positive") + " orientation, ReverseSolution=" + std::to_string(rev) + ", first vertex " + (nd.poly.empty() ? std::string("-") : ptstr(nd.poly[0])));
       return true;
@@ -254,7 +262,7 @@ static bool check_nesting(Ctx& ctx, const Case& c, const Flat& t, bool rev, bool
       ++ns.located; if (loc == LOC_ON) ++ns.on_boundary;
       if (loc == LOC_OUT) {
         ld d = dist_to_path(pa.poly, v);
-        ctx.violation("C04.child_in_parent", join_tags({ "vertex_outside_parent", d <= tol ? "excursion_le_tol" : "excursion_gt_tol", which, cls }, classify_node(t, (int)k, use_mid, cls)), c,
+        ctx.violation("C04.child_in_parent", join_tags({ "vertex_outside_parent", d <= tol ? "excursion_le_tol" : "excursion_gt_tol", which, cls }, classify_node(t, (int)k, use_mid, cls, rev)), c,
           std::string(which) + " node " + std::to_string(k) + " (depth " + std::to_string(ch.level) + ") vertex " + ptstr(v) + " is strictly outside its parent polygon (node " +
           std::to_string(ch.parent) + ", first vertex " + ptstr(pa.poly[0]) + "), distance to the parent boundary " + ldstr(d) + ", tol(M) " + ldstr(tol));
         return true;
@@ -264,7 +272,7 @@ static bool check_nesting(Ctx& ctx, const Case& c, const Flat& t, bool rev, bool
         int lm = locate(pa.poly, pa.bb, (i128)v.x + u.x, (i128)v.y + u.y, 2);
         ++ns.mid_located;
         if (lm == LOC_OUT) {
-          ctx.violation("C04.child_in_parent", join_tags({ "midpoint_outside_parent", which, cls }, classify_node(t, (int)k, use_mid, cls)), c,
+          ctx.violation("C04.child_in_parent", join_tags({ "midpoint_outside_parent", which, cls }, classify_node(t, (int)k, use_mid, cls, rev)), c,
             std::string(which) + " node " + std::to_string(k) + " (depth " + std::to_string(ch.level) + "): the midpoint of edge " + ptstr(v) + "-" + ptstr(u) + " is strictly outside the parent polygon (node " + std::to_string(ch.parent) + ")");
           return true;
         }
@@ -273,9 +281,9 @@ static bool check_nesting(Ctx& ctx, const Case& c, const Flat& t, bool rev, bool
   }
   // (3) outside the siblings
   auto sib_class = [&](int a, int b) {     // classify the node that is inside; if it is where it belongs, the other one
-    std::vector<std::string> ta = classify_node(t, a, use_mid, cls);
+    std::vector<std::string> ta = classify_node(t, a, use_mid, cls, rev);
     if (ta[0] != "parent_is_true_container") return ta;
-    return classify_node(t, b, use_mid, cls);
+    return classify_node(t, b, use_mid, cls, rev);
   };
   auto sib = [&](const std::vector<int>& group) -> bool {
     for (size_t ia = 0; ia < group.size(); ++ia)
